@@ -242,6 +242,10 @@ pub fn gen_de_cut(g: &mut Gen) {
         if bytes.len() <= 300 && !bytes.is_empty() {
             let b = bounds.iter().map(|x| x.to_string()).collect::<Vec<_>>().join(",");
             let ty = crate::tyseed::doc_ty(&mut g.rng, &doc, false);
+            // fixed-length tuple targets fetch the closing token themselves (a separate path through the streaming
+            // deserializers): a cut directly before that `}` must still be an error
+            let ty = if g.rng.chance(1, 2) { super::c20::tuplify_doc(&mut g.rng, &ty, &doc) } else { ty };
+            if crate::tyseed::show_ty(&ty).contains("tup(") { g.count("de-cut-tuple-target"); }
             g.emit(format!("x-cutbin {} {} {}", hex(&bytes), if b.is_empty() { "-".to_string() } else { b }, crate::tyseed::show_ty(&ty)));
         }
         let doc = docgen::gen_doc(&mut g.rng, &DocCfg { max_fields: 4, ..DocCfg::save_style() });
